@@ -3,21 +3,23 @@
 //   Queued  <=> the packet was handed to exactly one worker queue and the queue accepted it; drop counter unchanged
 //   Dropped <=> no queue holds the packet; the drop counter went up by exactly one
 // The queue (crossbeam try_send) and the flow hash are replaced by steerable stand-ins, so every
-// combination of {shutting down, hash ok / no flow, queue accepts / full} is explored.
+// combination of {shutting down, hash ok / no flow, queue accepts / full / disconnected} is explored.
 use super::*;
 use std::sync::atomic::AtomicUsize;
 
 static SENT: AtomicUsize = AtomicUsize::new(0);
 static ACCEPTED: AtomicUsize = AtomicUsize::new(0);
-static QUEUE_ACCEPTS: AtomicBool = AtomicBool::new(true);
+static QUEUE_STATE: AtomicUsize = AtomicUsize::new(0); // 0 accepts, 1 full, 2 disconnected (worker gone)
 fn steer_try_send<T>(_s: &Sender<T>, msg: T) -> Result<(), crossbeam_channel::TrySendError<T>> {
     SENT.fetch_add(1, Ordering::SeqCst);
-    if QUEUE_ACCEPTS.load(Ordering::SeqCst) {
-        ACCEPTED.fetch_add(1, Ordering::SeqCst);
-        core::mem::forget(msg);
-        Ok(())
-    } else {
-        Err(crossbeam_channel::TrySendError::Full(msg))
+    match QUEUE_STATE.load(Ordering::SeqCst) {
+        0 => {
+            ACCEPTED.fetch_add(1, Ordering::SeqCst);
+            core::mem::forget(msg);
+            Ok(())
+        }
+        1 => Err(crossbeam_channel::TrySendError::Full(msg)),
+        _ => Err(crossbeam_channel::TrySendError::Disconnected(msg)),
     }
 }
 fn steer_hash(_packet: &[u8], num_workers: usize) -> Option<usize> {
@@ -52,7 +54,9 @@ fn pool(shutdown: bool) -> WorkerPool {
 #[kani::stub(crossbeam_channel::Sender::try_send, steer_try_send)]
 #[kani::stub(packet_hash::hash_flow, steer_hash)]
 fn c18_dispatch_outcome_agrees_with_counters() {
-    QUEUE_ACCEPTS.store(kani::any(), Ordering::SeqCst);
+    let q: usize = kani::any();
+    kani::assume(q <= 2);
+    QUEUE_STATE.store(q, Ordering::SeqCst);
     let p = pool(kani::any());
     let r = p.dispatch(vec![0u8; 4]);
     let dropped = p.dropped_count.load(Ordering::Relaxed);
@@ -70,7 +74,9 @@ fn c18_dispatch_outcome_agrees_with_counters() {
 #[kani::stub(packet_hash::hash_flow, steer_hash)]
 fn c18_dispatch_canary() {
     // must FAIL: some packets are queued
-    QUEUE_ACCEPTS.store(kani::any(), Ordering::SeqCst);
+    let q: usize = kani::any();
+    kani::assume(q <= 2);
+    QUEUE_STATE.store(q, Ordering::SeqCst);
     let p = pool(kani::any());
     let r = p.dispatch(vec![0u8; 4]);
     assert!(r == DispatchResult::Dropped);
